@@ -128,7 +128,12 @@ def run(ctx):
         ctx.decide(kinds == {"reassign", "delete"}, "C19.ac", ac.ident, loc_of(ac), "restore deletes the attribute when there was none before and reassigns the previous value otherwise",
                    f"restore only handles {sorted(kinds)}: one of (no previous value / previous value) is not restored to its entry state", disc="both")
         # the branch taken depends on prev being None
-        tests = [n for n in g.nodes if n.kind == "test" and isinstance(n.ast, ast.Compare) and isinstance(n.ast.left, ast.Name) and n.ast.left.id == prev]
+        def unnot(a):
+            k = 0
+            while isinstance(a, ast.UnaryOp) and isinstance(a.op, ast.Not):
+                a, k = a.operand, k + 1
+            return a, k
+        tests = [n for n in g.nodes if n.kind == "test" and isinstance(unnot(n.ast)[0], ast.Compare) and isinstance(unnot(n.ast)[0].left, ast.Name) and unnot(n.ast)[0].left.id == prev]
         okb = False
         if tests:
             t = tests[0]
@@ -146,7 +151,8 @@ def run(ctx):
                         continue
                     todo.extend(m for m, lab in g.succ[n] if lab not in ("exc", "reraise"))
                 return False
-            is_none = isinstance(t.ast.ops[0], ast.Is)
+            core, nots = unnot(t.ast)
+            is_none = isinstance(core.ops[0], ast.Is) != bool(nots % 2)
             okb = reach(tnodes.get("true" if is_none else "false"), "delete") and reach(tnodes.get("false" if is_none else "true"), "reassign")
         ctx.decide(okb, "C19.ac", ac.ident, loc_of(ac), "no previous value -> delete; previous value -> reassign it",
                    "the restore branches are attached to the wrong case of 'previous value is None'", disc="polarity")
